@@ -267,7 +267,7 @@ func (jg *joinGen) onCond(kind string, all []jcol, c, wl int, ctxRefs bool) jexp
 		}
 		parts = append(parts, jexpr{tok: "= " + ea.tok + " " + eb.tok, sql: ea.sql + " = " + eb.sql})
 	}
-	extraDen := 2
+	extraDen := 3
 	if outer {
 		extraDen = 14 // the planner rejects it: exercised, but rarely
 	}
@@ -398,7 +398,7 @@ func genJoinOp(g *Gen, thorough bool) string {
 		f = jg.join(k1, nil, leaf(0), func(ctx []jcol) jfrom { return jg.join(k2, ctx, leaf(1), leaf(2), false) }, true)
 	}
 	whrTok, whrSQL := "-", ""
-	if g.Chance(2, 5) {
+	if g.Chance(1, 3) {
 		w := genJPred(g, f.cols, 0, len(f.cols), 2)
 		whrTok, whrSQL = w.tok, " WHERE "+w.sql
 	}
